@@ -17,6 +17,7 @@
      cache_get s id      the list served from memory (Manager.SectorRoots) *)
 From HostdBase Require Import Base.
 From HostdRoots Require Import Model Lists ProofsReplay ProofsInv ProofsStep ProofsRenew ProofsSpec ProofsTop.
+From HostdRoots Require Import Sess SessFrame SessProofs SessTop SessCheck.
 Open Scope N_scope.
 
 (* Store.ReviseContract's replay of an action list the updater accepted, on a table that
@@ -156,6 +157,91 @@ Theorem c03_restart_same_lists : forall meta s id c, reach meta s -> is_live s i
 Proof. exact c03_restart_l. Qed.
 Print Assumptions c03_restart_same_lists.
 
+(* ------------------------------------------------------------------------------------------------
+   WP-N: the list a caller is handed under the contract lock (Sess.v: sessions over the manager).
+
+     sstep faithful S e     sessions queue on a contract lock (SReq), get it (SAcq1 = Manager.Lock returns,
+                            SAcq2 = LockV2Contract returns: contract row and cached roots are read at
+                            that moment, after the lock is acquired), make manager calls (SOp), release
+     sdisc meta true S e    the lock protocol: a call that writes contract id is made by the holder of
+                            id's lock, Unlock by the holder (rhp/v2, rhp/v3, coreutils rhp/v4 handlers;
+                            the bracket itself is C15's c15_users_mutual_exclusion)
+     sreach meta S          S is reached from the empty host by a history of sessions that respects it:
+                            any number of sessions, any interleaving with other sessions' commits
+     views S                what each current lock holder was handed
+   ------------------------------------------------------------------------------------------------ *)
+
+(* LockV2Contract, whoever held the lock before and whatever it committed: the revision and the list
+   handed to the caller agree — |l| x SectorSize = file size, meta l = Merkle root, l = the persisted
+   list = the list served from memory *)
+Theorem c03_lock_returns_current_list : forall meta S t id S' r rv l,
+  sreach meta S -> sstep faithful S (SAcq2 t id) = (S', SO (OLock2 (Ok (r, false, rv, l)))) ->
+  exists c, alookup id (t2 (dbs (sb S))) = Some c /\ rto c = None /\ r = rev c /\
+    l = tbl_list (rows c) /\ l = cache_get (sb S) id /\
+    fsize c = sector_size * nlen l /\ mroot c = meta l.
+Proof. exact acquire2_view_agrees. Qed.
+Print Assumptions c03_lock_returns_current_list.
+
+(* Manager.Lock: the returned revision is the stored one and commits to the list the manager serves *)
+Theorem c03_v1_lock_returns_current_revision : forall meta S t id S' r f m,
+  sreach meta S -> sstep faithful S (SAcq1 t id) = (S', SOLock1 (Ok (r, f, m))) ->
+  exists c, alookup id (t1 (dbs (sb S))) = Some c /\ rto c = None /\ r = rev c /\
+    tbl_list (rows c) = cache_get (sb S) id /\
+    f = sector_size * nlen (cache_get (sb S) id) /\ m = meta (cache_get (sb S) id).
+Proof. exact acquire1_view_agrees. Qed.
+Print Assumptions c03_v1_lock_returns_current_revision.
+
+(* ... and while the lock is held, over any continuation of the other sessions: what the holder was
+   handed is still the contract — same revision, same list, persisted = served = handed, file size and
+   Merkle root of that list — until the holder writes the contract itself *)
+Theorem c03_locked_view_is_current : forall meta S t w,
+  sreach meta S -> alookup t (views S) = Some w ->
+  alookup (w_id w) (owner S) = Some t /\
+  if w_v1 w then
+    exists c, alookup (w_id w) (t1 (dbs (sb S))) = Some c /\ rto c = None /\
+      rev c = w_rev w /\ fsize c = w_fsize w /\ mroot c = w_mroot w /\
+      tbl_list (rows c) = cache_get (sb S) (w_id w) /\
+      w_fsize w = sector_size * nlen (cache_get (sb S) (w_id w)) /\ w_mroot w = meta (cache_get (sb S) (w_id w))
+  else
+    exists c, alookup (w_id w) (t2 (dbs (sb S))) = Some c /\ w_renewed w = opt_is_some (rto c) /\
+      rev c = w_rev w /\ fsize c = w_fsize w /\ mroot c = w_mroot w /\
+      cache_get (sb S) (w_id w) = w_roots w /\
+      (w_renewed w = false ->
+         tbl_list (rows c) = w_roots w /\ w_fsize w = sector_size * nlen (w_roots w) /\ w_mroot w = meta (w_roots w)).
+Proof. exact locked_view_is_current. Qed.
+Print Assumptions c03_locked_view_is_current.
+
+(* the invariant of ProofsInv.v holds in every state the sessions reach (payment revisions included),
+   so every theorem above stated for [reach] holds there *)
+Theorem c03_invariant_under_sessions : forall meta S, sreach meta S -> Inv meta (sb S).
+Proof. exact (fun meta S R => si_inv meta S (sreach_sinv meta S R)). Qed.
+Print Assumptions c03_invariant_under_sessions.
+
+(* the discipline splits into the callers' discipline towards the manager (disc) and the lock protocol
+   (sown); the latter is what scheck checks, event by event, on every history a sessions harness records:
+   an event it lets through satisfies it (otherwise the check reports SOutsideLock) *)
+Theorem c03_discipline_is_base_and_lock_protocol : forall meta S e,
+  sdisc meta true S e <-> sbase meta S e /\ sown S e.
+Proof. exact sdisc_split. Qed.
+Print Assumptions c03_discipline_is_base_and_lock_protocol.
+
+Theorem c03_checked_histories_respect_lock_protocol : forall S e, sownb S e = true -> sown S e.
+Proof. exact sownb_sound. Qed.
+Print Assumptions c03_checked_histories_respect_lock_protocol.
+
+(* Legacy (seeded change C03-mut7, never the code at HEAD): LockV2Contract copies the cached roots
+   BEFORE it waits for the lock (variant snapv).  A history that respects the lock protocol — session 1
+   holds contract 7, session 2 queues, 1 appends a root and releases — hands session 2 revision 1 with
+   the list from before: file size and Merkle root do not match it, the host persists another list. *)
+Theorem c03_locked_view_read_before_lock_refuted : exists evs t w,
+  sdisc_run meta0 true snapv sinit evs /\
+  alookup t (views (sruns snapv sinit evs)) = Some w /\ w_renewed w = false /\
+  w_fsize w <> sector_size * nlen (w_roots w) /\ w_mroot w <> meta0 (w_roots w) /\
+  w_roots w <> cache_get (sb (sruns snapv sinit evs)) (w_id w).
+Proof. exact snap_before_lock_refuted. Qed.
+Print Assumptions c03_locked_view_read_before_lock_refuted.
+
+
 (* non-vacuity: a disciplined history with three commits on one updater (one of them hit by
    a store failure), a renewal, a revision of the successor and a restart *)
 Example c03_nonvacuous :
@@ -163,3 +249,11 @@ Example c03_nonvacuous :
   cache_get (runs init ex_ops) 8 = [1; 3] /\
   aget (aruns init ainit ex_ops) 8 = [1; 3].
 Proof. exact (conj ex_disc (conj (proj1 ex_final) (proj1 (proj2 ex_final)))). Qed.
+
+(* non-vacuity of the sessions' discipline: holder 1, waiter 2 queued through an append; on the faithful
+   model the waiter is handed revision 1 with the new list *)
+Example c03_sessions_nonvacuous :
+  sdisc_run meta0 true faithful sinit ex_snap /\
+  exists w, alookup 2 (views (sruns faithful sinit ex_snap)) = Some w /\ w_rev w = 1 /\ w_roots w = [1] /\
+            w_fsize w = sector_size * nlen (w_roots w).
+Proof. exact ex_snap_faithful. Qed.
